@@ -13,7 +13,7 @@ HERE = os.path.dirname(os.path.dirname(os.path.abspath(__file__)))
 def run_one(patch, pid, tests=None, tier='quick', jobs=None):
     d = tempfile.mkdtemp(prefix='vmut_', dir='/tmp')
     try:
-        subprocess.run(['rsync', '-a', '--exclude', '.git', '--exclude', 'docs', '--exclude', 'tmp', '/repo/', d + '/'], check=True)
+        subprocess.run(['rsync', '-a', '--exclude', '.git', '/repo/', d + '/'], check=True)
         p = subprocess.run(['patch', '-p1', '--no-backup-if-mismatch', '-i', os.path.abspath(patch)], cwd=d, capture_output=True, text=True)
         if p.returncode != 0:
             return dict(patch=patch, applied=False, msg=p.stdout[-300:] + p.stderr[-300:])
